@@ -108,6 +108,7 @@ class Exec(object):
         self.in_comprehension = False
         self.literal_lists = {}      # list term -> its elements, for list literals
         self.elem_sets = {}          # list term -> set term with the same elements (ghost), when known by construction
+        self.arg_stack = []          # arguments of the calls being evaluated (for Contract.result_shares)
 
     # ------------------------------------------------------------------ obligations / assumptions
     def _wrap(self, p, f):
@@ -702,6 +703,8 @@ class Exec(object):
                 return SV(REGEXP, ctor())
             if n in REC_CLASSES: return self.construct(p, n, e)
             if n == 'IdentifierGenerator': return self.construct(p, 'IdGen', e)     # field-wise, justified by the verified contract of __init__
+            if n == 'RegexpToNFAGenerator' and not e.args:                            # empty alphabet, fresh name generator (verified contract of __init__)
+                return mk_rec('RxGen', Sigma=empty_set(ATOM), id_generator=mk_rec('IdGen', index=SV(INT, IntVal(0))))
             if self.spec_mode and n in T.SPEC:
                 return T.SPEC[n](self, *[self.ev(p, a) for a in e.args])
             if self.spec_mode and n == 'old':
@@ -735,7 +738,7 @@ class Exec(object):
                 raise Unsupported('call of %s (line %d)' % (f.attr, e.lineno))
             if isinstance(f.value, ast.Name) and f.value.id == 'self':
                 c = self.reg.find_method(self.c, f.attr)
-                if c is not None: return self.call_contract(p, c, e, self_arg=self.lookup(p, 'self'))
+                if c is not None: return self.call_contract(p, c, e, self_arg=self.lookup(p, 'self'), self_expr=f.value)
             return self.method(p, f, e)
         raise Unsupported('call form')
 
@@ -1006,7 +1009,7 @@ class Exec(object):
                                    ForAll([j], Implies(And(0 <= j, j < i), Not(self.equal(SV(o.t.args[0], Select(list_arr(o), j)), x))))))
                 return SV(INT, i)
         if o.t.kind == 'rec':
-            cname = {'IdGen': 'IdentifierGenerator'}.get(o.t.args[0], o.t.args[0])
+            cname = {'IdGen': 'IdentifierGenerator', 'RxGen': 'RegexpToNFAGenerator'}.get(o.t.args[0], o.t.args[0])
             cs = self.reg.variants('%s.%s' % (cname, name))
             if cs: return self.call_contract(p, cs, e, self_arg=o, self_expr=f.value)
         if o.t == WORD:
@@ -1146,8 +1149,15 @@ class Exec(object):
         pos = list(e.args)
         if self_arg is not None: args[names[0]] = self_arg; names_rest = names[1:]
         else: names_rest = names
-        for n, a in zip(names_rest, pos): args[n] = self.ev_hint(p, a, c.param_types[n])
-        for kw in e.keywords: args[kw.arg] = self.ev_hint(p, kw.value, c.param_types[kw.arg])
+        # arguments are evaluated left to right; a later argument may be a call that enlarges an object shared with an earlier one
+        # (see Contract.result_shares): the values already evaluated are kept on a stack so that such a call can re-read them
+        cur = []; self.arg_stack.append(cur)
+        try:
+            for n, a in zip(names_rest, pos): cur.append([n, self.ev_hint(p, a, c.param_types[n])])
+            for kw in e.keywords: cur.append([kw.arg, self.ev_hint(p, kw.value, c.param_types[kw.arg])])
+        finally:
+            self.arg_stack.pop()
+        for n, v in cur: args[n] = v
         for n in names:
             if n not in args:
                 if n in c.defaults: args[n] = self.ev_spec_in(p, c.defaults[n], {})
@@ -1233,8 +1243,29 @@ class Exec(object):
         # 4. write back modified arguments
         for n in c.modifies:
             idx = list(c.params).index(n) - (1 if (c.is_method and len(arg_exprs) < len(c.params)) else 0)
-            if arg_exprs[idx] is not None: self.store(p, arg_exprs[idx], post_env[n])
+            if arg_exprs[idx] is not None and not isinstance(arg_exprs[idx], ast.Call):      # a temporary (the value of a call) has no place to write back to
+                self.store(p, arg_exprs[idx], post_env[n])
+        # 5. shared mutable fields (Contract.result_shares): this call may have enlarged the shared object, so every value obtained earlier
+        #    from such a call (local variables and arguments already evaluated) is re-read with a field between its old value and the
+        #    current content of the shared place; the new result is marked in turn
+        if c.result_shares:
+            self.grow_shared(p)
+            res.shares = dict(c.result_shares)
         return res
+
+    def grow_shared(self, p):
+        def grown(v):
+            for fld, place in v.shares.items():
+                cur = self.ev(p, ast.parse(place, mode='eval').body)
+                oldf = rec_get(v, fld); nf = fresh('grown_' + fld, oldf.t)
+                self.assume(p, S.subset(oldf, nf)); self.assume(p, S.subset(nf, S.union(oldf, cur)))
+                nv = rec_set(v, fld, nf); nv.shares = v.shares; v = nv
+            return v
+        for k, v in list(p.env.items()):
+            if isinstance(v, SV) and getattr(v, 'shares', None): p.env[k] = grown(v)
+        for lst in self.arg_stack:
+            for ent in lst:
+                if isinstance(ent[1], SV) and getattr(ent[1], 'shares', None): ent[1] = grown(ent[1])
 
     # ------------------------------------------------------------------ statements
     def run_block(self, paths, stmts):
@@ -1274,6 +1305,12 @@ class Exec(object):
     def ev_typed(self, p, value, target):
         """evaluate with the declared type of the target as a hint (empty literals, defaultdict)"""
         dt = self.declared(target.id) if isinstance(target, ast.Name) else None
+        if isinstance(target, ast.Attribute):       # a field of a record object: the field type types an empty literal
+            try:
+                o_ = self.ev(p, target.value)
+                if o_.t.kind == 'rec': dt = RECORDS[o_.t.args[0]].get(target.attr)
+            except Unsupported:
+                dt = None
         if dt == NONE: dt = None          # a parameter typed None in this entry point may be rebound to a real object
         if dt is not None:
             ev = self.empty_of(dt, value)
